@@ -19,15 +19,27 @@ def t(s):
     return tuple(s)
 
 
-def consts(maxops, afters=("",), keys=KEYS):
+KFS = ["C27-hidden-entry-ends-listing", "C27-marker-taken-as-path"]
+
+
+def consts(maxops, afters=("",), keys=KEYS, bkf=None, maxbucket=5, countbug=False):
+    c = _consts(maxops, afters, keys, maxbucket)
+    if bkf is not None:
+        c["BKF"] = set(bkf)      # S3ListImpl only
+        c["CountBug"] = countbug
+    return c
+
+
+def _consts(maxops, afters, keys, maxbucket):
     return {"Alpha": tuple(ALPHA), "Keys": {t(k) for k in keys}, "PrefixSet": {t(p) for p in PREFIXES},
             "Delims": {"", "/"}, "MaxKeysSet": {1, 2, 3, 4}, "Styles": set(STYLES),
-            "Afters": {t(a) for a in afters}, "MaxBucket": 5, "MaxOps": maxops}
+            "Afters": {t(a) for a in afters}, "MaxBucket": maxbucket, "MaxOps": maxops}
 
 
 def run(ctx):
     from concurrent.futures import ThreadPoolExecutor
-    ctx.sany("S3List", "S3ListTrace")
+    ctx.sany("S3List", "S3ListImpl", "S3ListTrace")
+    kf = sorted(ctx.kf_open.keys())
     rng = random.Random(ctx.seed)
     script = os.path.join(ctx.out, "script.ndjson")
     mc_cfg = open(os.path.join(vf.SPEC, "S3List_mc.cfg")).read()
@@ -38,19 +50,44 @@ def run(ctx):
         # one TLC run: the S3 reference listing under the four client continuation rules over every bucket of
         # <= 5 keys x prefix x delimiter x max-keys is admitted by the judge's page rule, terminates and enumerates
         # exactly the item set; the same run emits the grid of (bucket, request) pairs as the script
-        # (quick: the buckets over a seeded 4-key part of the universe; thorough: all 120)
-        universe = KEYS if ctx.thorough else sorted(rng.sample(KEYS, 4))
+        # (quick: the buckets over a seeded 5-key part of the universe; thorough: all 120)
+        universe = KEYS if ctx.thorough else sorted(rng.sample(KEYS, 5))
         ctx.notes["key_universe"] = universe
         g = ctx.instance("G_S3List", "S3List", mc_cfg + "INVARIANT Emit\n", consts(1, keys=universe))
         # initial markers (not part of the emitted grid: model-checked here, requests added below)
-        ga = ctx.instance("MC_S3ListAfter", "S3List", mc_cfg, consts(1, AFTERS))
-        with ThreadPoolExecutor(max_workers=3) as pool:
+        ga = ctx.instance("MC_S3ListAfter", "S3List", mc_cfg, consts(1, AFTERS, maxbucket=3))
+        # layer B (the gateway's listing procedure as a model) against the page rule: with the open deviations
+        # admitted every page of the procedure is either fine or attributed to one of them (no third root cause)
+        gi = ctx.instance("MC_S3ListImpl", "S3ListImpl", "S3ListImpl_mc.cfg", consts(1, keys=universe, bkf=kf))
+        with ThreadPoolExecutor(max_workers=4) as pool:
             fb = pool.submit(ctx.build, "c27")
-            fh = pool.submit(ctx.generate, g, "W", 4, 1500)
+            fh = pool.submit(ctx.generate, g, "W", 2, 1500)
+            fi = pool.submit(ctx.model_check, gi, 2, 1500)
             if ctx.thorough:
                 fa = pool.submit(ctx.model_check, ga, 2, 1500)
                 fa.result()
+            fi.result()
             hists, binp = fh.result(), fb.result()
+        if ctx.thorough:
+            # the same with initial markers (smaller buckets), and the predictions: without a deviation the model
+            # violates the page rule - the counterexamples are the known findings, observed on the real gateway below
+            gia = ctx.instance("MC_S3ListImplAfter", "S3ListImpl", "S3ListImpl_mc.cfg",
+                               consts(1, AFTERS, bkf=kf, maxbucket=2))
+            ctx.model_check(gia, 4, 1500)
+            # folders two levels deep with several keys (not in the mandated universe): the procedure as fixed, and
+            # the prediction of the miscount that was fixed (CountBug)
+            deep = ["a/b/c", "a/b/d", "a/c", "b"]
+            gd = ctx.instance("MC_S3ListImplDeep", "S3ListImpl", "S3ListImpl_mc.cfg", consts(1, keys=deep, bkf=kf, maxbucket=4))
+            ctx.model_check(gd, 2, 900)
+            gdp = ctx.instance("MC_S3ListImplDeepPredict", "S3ListImpl",
+                               "SPECIFICATION ImplSpec\nINVARIANT ImplOK\nCHECK_DEADLOCK FALSE\n",
+                               consts(1, keys=deep, bkf=kf, maxbucket=4, countbug=True))
+            ctx.model_check(gdp, 2, 900, expect_violation="ImplOK", coverage=False)
+            for i, k in enumerate(kf):
+                gp = ctx.instance("MC_S3ListImplPredict%d" % i, "S3ListImpl",
+                                  "SPECIFICATION ImplSpec\nINVARIANT ImplOK\nCHECK_DEADLOCK FALSE\n",
+                                  consts(1, AFTERS if "marker" in k else ("",), bkf=[x for x in kf if x != k], maxbucket=2))
+                ctx.model_check(gp, 2, 900, expect_violation="ImplOK", coverage=False)
         ctx.notes["grid_total"] = len(hists)
         # group the grid by bucket content and (prefix, delimiter, max-keys): one execution = one bucket state and
         # the loops of the four continuation styles
@@ -66,12 +103,23 @@ def run(ctx):
                 execs.append((gk[0], upl, "default", groups[gk]))
         if not ctx.thorough:
             # quick: buckets with an in-progress upload and small max-keys first (stratified), then a seeded sample
-            rng.shuffle(execs)
-            execs = execs[:400]
+            # seeded sample, weighted towards requests whose enumeration needs several pages
+            def weight(ex):
+                bk, _, _, loops = ex
+                r = loops[0]
+                n = sum(1 for k in bk if k.startswith("".join(r["prefix"])))
+                return 0.15 + n / r["maxkeys"]
+            ws = [weight(ex) for ex in execs]
+            pick = set()
+            while len(pick) < min(400, len(execs)):
+                pick.add(rng.choices(range(len(execs)), ws)[0])
+            execs = [execs[i] for i in sorted(pick)]
         # extra requests outside the mandated grid: initial marker / start-after (single loops), the gateway that
         # shows empty folders, keys put in reverse order (a directory exists before the file of the same name)
         extra = []
         buckets = sorted({gk[0] for gk in gkeys})
+        # buckets outside the mandated universe: several keys two folders deep
+        buckets += [("a/b/c", "a/b/d", "a/c", "b"), ("a/b/c", "a/b/d", "b/c/d", "b/c/e"), ("a/b/c/d", "a/b/c/e", "a/b/f")] * 3
         nextra = len(buckets) * 4 if ctx.thorough else 60
         for _ in range(nextra):
             bk = rng.choice(buckets)
@@ -80,7 +128,7 @@ def run(ctx):
                 st = rng.choice(STYLES)
                 loops.append({"style": st, "prefix": list(rng.choice(PREFIXES)), "delim": rng.choice(["", "/"]),
                               "maxkeys": rng.choice([1, 2, 3, 4]),
-                              "after": list(rng.choice(AFTERS)) if st != "token" else []})
+                              "after": list(rng.choice(AFTERS)) if st != "token" and rng.random() < 0.6 else []})
             extra.append((bk, rng.random() < 0.5, rng.choice(["default", "allowempty"]), loops, rng.random() < 0.3))
         def putorder(ex):
             return list(reversed(ex[0])) if len(ex) > 4 and ex[4] else list(ex[0])
@@ -107,12 +155,12 @@ def run(ctx):
                 return m
         return None
 
-    ctx.judge("S3ListTrace", trace, "trace_base.cfg", consts(0),
+    ctx.judge("S3ListTrace", trace, "trace_base.cfg", consts(0, bkf=()),
               nontrivial=lambda e: sum('"ev":"page"' in x for x in e) > sum('"ev":"end"' in x for x in e), mutate=mutate)
     ctx.rule = ("executions = every bucket over <= 5 keys of {a, a/b, a/c, ab, b/c/d, c/, a/b/c} (put through the real "
                 "gateway in that order), with and without an in-progress multipart upload, x prefix {'', a, a/, ab, b/c, z} "
                 "x delimiter {'', /} x max-keys 1..4, each with four pagination loops (V1 NextMarker, V1 last key, V2 "
-                "continuation token, V2 start-after) - TLC-enumerated grid (quick: the buckets over a seeded 4-key part of the universe, seeded sample of 400 executions); "
+                "continuation token, V2 start-after) - TLC-enumerated grid (quick: the buckets over a seeded 5-key part of the universe, seeded sample of 400 executions weighted towards multi-page enumerations); "
                 "plus seeded loops with an initial marker / start-after, a gateway with AllowEmptyFolder, reverse put "
                 "order; non-trivial = some loop has more than one page; distinct by hash")
     ctx.exhaustive = ctx.thorough
